@@ -29,6 +29,15 @@ fn run_type<T: model::Model>(ctx: &mut Ctx) {
         }
     }
     if let Some(r) = ctx.replay.clone() {
+        if r[0] == "shrink" && r.len() == 4 {
+            // shrink <oracle> <desc> <hex>
+            if r[2] == T::desc() && !ctx.replay_done {
+                ctx.replay_done = true;
+                let small = codec::shrink_dec::<T>(ctx, &r[1], &model::unhex(&r[3]));
+                println!("{}", model::hex(&small));
+            }
+            return;
+        }
         if r[0] == "dec" && r.len() == 3 {
             if r[1] == T::desc() && !ctx.replay_done {
                 ctx.replay_done = true;
@@ -111,7 +120,24 @@ fn main() {
         type_filter,
         replay: None,
         replay_done: false,
+        corpus: Vec::new(),
     };
+    if let Ok(dir) = std::env::var("VERIF_CORPUS") {
+        if let Ok(rd) = std::fs::read_dir(&dir) {
+            let mut files: Vec<_> = rd.filter_map(|e| e.ok()).map(|e| e.path()).filter(|p| p.extension().map(|x| x == "tsv").unwrap_or(false)).collect();
+            files.sort();
+            for f in files {
+                if let Ok(txt) = std::fs::read_to_string(&f) {
+                    for line in txt.lines() {
+                        let c: Vec<&str> = line.split('\t').collect();
+                        if c.len() == 3 && c[0] == "dec" {
+                            ctx.corpus.push((c[1].to_string(), model::unhex(c[2])));
+                        }
+                    }
+                }
+            }
+        }
+    }
     if let Some(req) = replay {
         // re-evaluate one request on the implementation: `dec <desc> <hex>` etc.
         let fields: Vec<String> = req.split('\t').map(|s| s.to_string()).collect();
@@ -120,7 +146,9 @@ fn main() {
             .iter()
             .map(|s| s.to_string())
             .collect();
-        if fields.len() >= 2 && ["dec", "enc", "len", "spec", "append", "meta"].contains(&fields[0].as_str()) {
+        if fields[0] == "shrink" && fields.len() == 4 {
+            ctx.groups = ["dec"].iter().map(|s| s.to_string()).collect();
+        } else if fields.len() >= 2 && ["dec", "enc", "len", "spec", "append", "meta"].contains(&fields[0].as_str()) {
             ctx.only_type = Some(fields[1].clone());
             ctx.groups = ["meta", "enc", "entry", "dec"].iter().map(|s| s.to_string()).collect();
         } else {
